@@ -4,6 +4,8 @@ package vrt
 
 import (
 	"fmt"
+	"os"
+	"strings"
 	"time"
 )
 
@@ -25,6 +27,14 @@ type Explorer struct {
 	Stateful bool
 	States   int // distinct global states visited (stateful mode)
 	Cuts     int // executions cut at a visited state
+	// DepthFirst takes the prefixes of a stateful exploration depth first instead of breadth first.
+	// The visited set of a sound state key is the same for both orders (StateHash): harnesses run both
+	// and treat a difference as a defect of the key (something that decides the future is missing in it).
+	DepthFirst bool
+	// Reversed takes the alternatives of every point in the opposite order (a second breadth-first order
+	// that is as cheap as the first one, for the same cross-check where depth first is too slow).
+	Reversed  bool
+	StateHash uint64 // order-independent digest of the visited set
 
 	// results
 	Execs       int
@@ -54,7 +64,31 @@ func (e *Explorer) Explore(body func()) {
 			seen[k] = struct{}{}
 			return false
 		}
-		defer func() { pendingVisited, pendingKeyFn = nil, nil; e.States = len(seen) }()
+		defer func() {
+			pendingVisited, pendingKeyFn = nil, nil
+			e.States = len(seen)
+			for k := range seen {
+				h := uint64(1469598103934665603)
+				for i := 0; i < len(k); i++ {
+					h = (h ^ uint64(k[i])) * 1099511628211
+				}
+				e.StateHash ^= h
+			}
+			if f := os.Getenv("VERIF_DUMP_STATES"); f != "" { // debugging aid: the visited set, one key per line
+				var sb strings.Builder
+				for k := range seen {
+					sb.WriteString(strings.ReplaceAll(k, "\n", " "))
+					sb.WriteString("\n")
+				}
+				suffix := ".bfs"
+				if e.DepthFirst {
+					suffix = ".dfs"
+				} else if e.Reversed {
+					suffix = ".rev"
+				}
+				os.WriteFile(f+suffix, []byte(sb.String()), 0o644)
+			}
+		}()
 		if e.runBound(-1, body) {
 			e.Complete = true
 		}
@@ -84,8 +118,15 @@ func (e *Explorer) runBound(bound int, body func()) bool {
 	execs := 0
 	stack := [][]int{nil}
 	for len(stack) > 0 {
-		prefix := stack[len(stack)-1]
-		stack = stack[:len(stack)-1]
+		var prefix []int
+		if e.Stateful && !e.DepthFirst && os.Getenv("VERIF_STATEFUL_DFS") == "" {
+			// breadth first: a state is first reached by a shortest choice sequence, which keeps the
+			// replayed prefixes (the cost of every later execution through that state) short
+			prefix, stack = stack[0], stack[1:]
+		} else {
+			prefix = stack[len(stack)-1]
+			stack = stack[:len(stack)-1]
+		}
 		if e.Budget > 0 && execs >= e.Budget {
 			return false
 		}
@@ -126,9 +167,17 @@ func (e *Explorer) runBound(bound int, body func()) bool {
 			return true
 		}
 		// branch on every later point (deepest first so that the DFS order is stable)
-		for i := np - 1; i >= len(prefix); i-- {
+		for i0 := np - 1; i0 >= len(prefix); i0-- {
+			i := i0
+			if e.Reversed {
+				i = len(prefix) + (np - 1 - i0)
+			}
 			p := x.PointAt(i)
-			for alt := p.N - 1; alt >= 1; alt-- {
+			for a0 := p.N - 1; a0 >= 1; a0-- {
+				alt := a0
+				if e.Reversed {
+					alt = p.N - a0
+				}
 				cost := preAt[i]
 				if !p.Data && p.CurEnabled {
 					cost++
